@@ -87,6 +87,14 @@ fn offset_panics_at_512() {
     let _ = Availability::offset(i);
 }
 
+/// ... and the boundary itself: `should_panic` is satisfied by ONE panicking input, so index 512 — the first one that
+/// would alias worker 384's word with bit 128 — gets a harness of its own (found by the mutation audit: `<` -> `<=`)  [C04]
+#[kani::proof]
+#[kani::should_panic]
+fn offset_panics_at_exactly_512() {
+    let _ = Availability::offset(512);
+}
+
 /// vacuity guard: the assumptions above are satisfiable and both outcomes of the queries are reachable
 #[kani::proof]
 fn reach() {
